@@ -419,3 +419,358 @@ Qed.
 End Quartet.
 
 End Spec.
+
+(* ======================= the specification of a block entry and the list level ======================= *)
+Section Block.
+Context {F : Type} (K : Fops F) (Kf : is_field K).
+Add Field KFeb : Kf.
+Local Open Scope F_scope.
+Notation "0" := (f0 K) : F_scope.
+Notation "1" := (f1 K) : F_scope.
+Infix "+" := (fadd K) : F_scope.
+Infix "*" := (fmul K) : F_scope.
+Notation "# n" := (ofnat K n) (at level 5) : F_scope.
+Notation Phi := (Phi K).
+Notation cmp s i := (nth i (comps_of s) (0, 0, 0)%nat).
+
+(* the right-hand side of two_elec_correct *)
+Definition eri_sum (s1 s2 s3 s4 : shell F) (m1 i1 m2 i2 m3 i3 m4 i4 : nat) : F :=
+  csum K (wts K s1) m1 (s_exps s1) (fun alpha =>
+    csum K (wts K s2) m2 (s_exps s2) (fun beta =>
+      csum K (wts K s3) m3 (s_exps s3) (fun gamma =>
+        csum K (wts K s4) m4 (s_exps s4) (fun delta =>
+          Phi (eri_base K (s_x s1) (s_y s1) (s_z s1) (s_x s2) (s_y s2) (s_z s2)
+                          (s_x s3) (s_y s3) (s_z s3) (s_x s4) (s_y s4) (s_z s4)
+                          alpha beta gamma delta) 0
+              (R4 K s1 s2 s3 s4 i1 i2 i3 i4 alpha beta gamma delta))))).
+Definition eri_spec (s1 s2 s3 s4 : shell F) (m1 i1 m2 i2 m3 i3 m4 i4 : nat) : F :=
+  eri_sum s1 s2 s3 s4 m1 i1 m2 i2 m3 i3 m4 i4
+  * inv_sqrt_df K (cmp s1 i1) * inv_sqrt_df K (cmp s2 i2) * inv_sqrt_df K (cmp s3 i3) * inv_sqrt_df K (cmp s4 i4).
+
+(* non-zero exponent sums (true for positive exponents) *)
+Definition exps_ok (s1 s2 s3 s4 : shell F) : Prop :=
+  (forall alpha beta, In alpha (s_exps s1) -> In beta (s_exps s2) -> alpha + beta <> 0)
+  /\ (forall gamma delta, In gamma (s_exps s3) -> In delta (s_exps s4) -> gamma + delta <> 0)
+  /\ (forall alpha beta gamma delta, In alpha (s_exps s1) -> In beta (s_exps s2) ->
+        In gamma (s_exps s3) -> In delta (s_exps s4) -> (alpha + beta) + (gamma + delta) <> 0).
+(* indices in range, component degrees *)
+Definition idx_ok (s1 s2 s3 s4 : shell F) (m1 i1 m2 i2 m3 i3 m4 i4 : nat) : Prop :=
+  (m1 < nseg s1 /\ i1 < length (comps_of s1) /\ compsum (cmp s1 i1) <= s_l s1)
+  /\ (m2 < nseg s2 /\ i2 < length (comps_of s2) /\ compsum (cmp s2 i2) <= s_l s2)
+  /\ (m3 < nseg s3 /\ i3 < length (comps_of s3) /\ compsum (cmp s3 i3) <= s_l s3)
+  /\ (m4 < nseg s4 /\ i4 < length (comps_of s4) /\ compsum (cmp s4 i4) <= s_l s4).
+
+Lemma exps_ok_ab s1 s2 s3 s4 : exps_ok s1 s2 s3 s4 -> exps_ok s2 s1 s3 s4.
+Proof. intros [Hp [Hq Hpq]]. repeat split.
+  - intros b a Hb Ha. apply (Hp' K Kf a b). now apply Hp.
+  - exact Hq.
+  - intros b a g d Hb Ha Hg Hd. apply (Hpq_ab K Kf a b g d). now apply Hpq.
+Qed.
+Lemma exps_ok_cd s1 s2 s3 s4 : exps_ok s1 s2 s3 s4 -> exps_ok s1 s2 s4 s3.
+Proof. intros [Hp [Hq Hpq]]. repeat split.
+  - exact Hp.
+  - intros d g Hd Hg. apply (Hq' K Kf g d). now apply Hq.
+  - intros a b d g Ha Hb Hd Hg. apply (Hpq_cd K Kf a b g d). now apply Hpq.
+Qed.
+Lemma exps_ok_el s1 s2 s3 s4 : exps_ok s1 s2 s3 s4 -> exps_ok s3 s4 s1 s2.
+Proof. intros [Hp [Hq Hpq]]. repeat split.
+  - exact Hq.
+  - exact Hp.
+  - intros g d a b Hg Hd Ha Hb. apply (Hpq_el K Kf a b g d). now apply Hpq.
+Qed.
+Lemma exps_ok_orient o s1 s2 s3 s4 : exps_ok s1 s2 s3 s4 ->
+  exps_ok (opick1 o s1 s2 s3 s4) (opick2 o s1 s2 s3 s4) (opick3 o s1 s2 s3 s4) (opick4 o s1 s2 s3 s4).
+Proof.
+  intros H. destruct o; cbn [opick1 opick2 opick3 opick4]; auto using exps_ok_ab, exps_ok_cd, exps_ok_el.
+Qed.
+Lemma idx_ok_orient o s1 s2 s3 s4 m1 i1 m2 i2 m3 i3 m4 i4 : idx_ok s1 s2 s3 s4 m1 i1 m2 i2 m3 i3 m4 i4 ->
+  idx_ok (opick1 o s1 s2 s3 s4) (opick2 o s1 s2 s3 s4) (opick3 o s1 s2 s3 s4) (opick4 o s1 s2 s3 s4)
+         (opick1 o m1 m2 m3 m4) (opick1 o i1 i2 i3 i4) (opick2 o m1 m2 m3 m4) (opick2 o i1 i2 i3 i4)
+         (opick3 o m1 m2 m3 m4) (opick3 o i1 i2 i3 i4) (opick4 o m1 m2 m3 m4) (opick4 o i1 i2 i3 i4).
+Proof.
+  intros [H1 [H2 [H3 H4]]]. destruct o; cbn [opick1 opick2 opick3 opick4]; repeat split; tauto.
+Qed.
+
+(* two_elec_correct, first half, with the hypotheses packaged *)
+Theorem eri_block_is_spec s1 s2 s3 s4 m1 i1 m2 i2 m3 i3 m4 i4 :
+  (forall x, fapx K x = x) -> 1 + 1 <> 0 ->
+  exps_ok s1 s2 s3 s4 -> idx_ok s1 s2 s3 s4 m1 i1 m2 i2 m3 i3 m4 i4 ->
+  get8 K (eri_block K s1 s2 s3 s4) m1 i1 m2 i2 m3 i3 m4 i4 = eri_spec s1 s2 s3 s4 m1 i1 m2 i2 m3 i3 m4 i4.
+Proof.
+  intros Hapx H2 [Hp [Hq Hpq]] [[Hm1 [Hi1 Hc1]] [[Hm2 [Hi2 Hc2]] [[Hm3 [Hi3 Hc3]] [Hm4 [Hi4 Hc4]]]]].
+  exact (proj1 (two_elec_correct K Kf s1 s2 s3 s4 m1 i1 m2 i2 m3 i3 m4 i4 Hapx H2 Hp Hq Hpq
+                  Hm1 Hm2 Hm3 Hm4 Hi1 Hi2 Hi3 Hi4 Hc1 Hc2 Hc3 Hc4)).
+Qed.
+
+Section Sym.
+Hypothesis char0 : forall n, #(S n) <> 0.
+Let H2 : 1 + 1 <> 0 := two_nz K Kf char0.
+
+(* ---- the specification is symmetric under the three generators ---- *)
+Theorem eri_sum_swap_ab s1 s2 s3 s4 m1 i1 m2 i2 m3 i3 m4 i4 : exps_ok s1 s2 s3 s4 ->
+  eri_sum s1 s2 s3 s4 m1 i1 m2 i2 m3 i3 m4 i4 = eri_sum s2 s1 s3 s4 m2 i2 m1 i1 m3 i3 m4 i4.
+Proof.
+  intros [Hp [Hq Hpq]]. unfold eri_sum.
+  rewrite (csum_swap K Kf (wts K s2) m2 (s_exps s2) (wts K s1) m1 (s_exps s1)).
+  apply csum_ext_in. intros alpha Ha. apply csum_ext_in. intros beta Hb.
+  apply csum_ext_in. intros gamma Hg. apply csum_ext_in. intros delta Hd.
+  apply (R4_Phi_swap_ab K Kf); auto.
+Qed.
+Theorem eri_sum_swap_cd s1 s2 s3 s4 m1 i1 m2 i2 m3 i3 m4 i4 : exps_ok s1 s2 s3 s4 ->
+  eri_sum s1 s2 s3 s4 m1 i1 m2 i2 m3 i3 m4 i4 = eri_sum s1 s2 s4 s3 m1 i1 m2 i2 m4 i4 m3 i3.
+Proof.
+  intros [Hp [Hq Hpq]]. unfold eri_sum.
+  apply csum_ext_in. intros alpha Ha. apply csum_ext_in. intros beta Hb.
+  rewrite (csum_swap K Kf (wts K s4) m4 (s_exps s4) (wts K s3) m3 (s_exps s3)).
+  apply csum_ext_in. intros gamma Hg. apply csum_ext_in. intros delta Hd.
+  apply (R4_Phi_swap_cd K Kf); auto.
+Qed.
+Theorem eri_sum_swap_el s1 s2 s3 s4 m1 i1 m2 i2 m3 i3 m4 i4 : exps_ok s1 s2 s3 s4 ->
+  eri_sum s1 s2 s3 s4 m1 i1 m2 i2 m3 i3 m4 i4 = eri_sum s3 s4 s1 s2 m3 i3 m4 i4 m1 i1 m2 i2.
+Proof.
+  intros [Hp [Hq Hpq]]. unfold eri_sum.
+  rewrite (csum_pair_swap K Kf (wts K s3) m3 (s_exps s3) (wts K s4) m4 (s_exps s4)
+             (wts K s1) m1 (s_exps s1) (wts K s2) m2 (s_exps s2)).
+  apply csum_ext_in. intros alpha Ha. apply csum_ext_in. intros beta Hb.
+  apply csum_ext_in. intros gamma Hg. apply csum_ext_in. intros delta Hd.
+  apply (R4_Phi_swap_el K Kf); auto.
+Qed.
+
+Theorem eri_spec_swap_ab s1 s2 s3 s4 m1 i1 m2 i2 m3 i3 m4 i4 : exps_ok s1 s2 s3 s4 ->
+  eri_spec s1 s2 s3 s4 m1 i1 m2 i2 m3 i3 m4 i4 = eri_spec s2 s1 s3 s4 m2 i2 m1 i1 m3 i3 m4 i4.
+Proof. intros H. unfold eri_spec. rewrite (eri_sum_swap_ab s1 s2 s3 s4) by exact H. ring. Qed.
+Theorem eri_spec_swap_cd s1 s2 s3 s4 m1 i1 m2 i2 m3 i3 m4 i4 : exps_ok s1 s2 s3 s4 ->
+  eri_spec s1 s2 s3 s4 m1 i1 m2 i2 m3 i3 m4 i4 = eri_spec s1 s2 s4 s3 m1 i1 m2 i2 m4 i4 m3 i3.
+Proof. intros H. unfold eri_spec. rewrite (eri_sum_swap_cd s1 s2 s3 s4) by exact H. ring. Qed.
+Theorem eri_spec_swap_el s1 s2 s3 s4 m1 i1 m2 i2 m3 i3 m4 i4 : exps_ok s1 s2 s3 s4 ->
+  eri_spec s1 s2 s3 s4 m1 i1 m2 i2 m3 i3 m4 i4 = eri_spec s3 s4 s1 s2 m3 i3 m4 i4 m1 i1 m2 i2.
+Proof. intros H. unfold eri_spec. rewrite (eri_sum_swap_el s1 s2 s3 s4) by exact H. ring. Qed.
+
+(* ---- all eight orientations ---- *)
+Theorem eri_spec_orient o s1 s2 s3 s4 m1 i1 m2 i2 m3 i3 m4 i4 : exps_ok s1 s2 s3 s4 ->
+  eri_spec (opick1 o s1 s2 s3 s4) (opick2 o s1 s2 s3 s4) (opick3 o s1 s2 s3 s4) (opick4 o s1 s2 s3 s4)
+           (opick1 o m1 m2 m3 m4) (opick1 o i1 i2 i3 i4) (opick2 o m1 m2 m3 m4) (opick2 o i1 i2 i3 i4)
+           (opick3 o m1 m2 m3 m4) (opick3 o i1 i2 i3 i4) (opick4 o m1 m2 m3 m4) (opick4 o i1 i2 i3 i4)
+  = eri_spec s1 s2 s3 s4 m1 i1 m2 i2 m3 i3 m4 i4.
+Proof.
+  intros H. symmetry.
+  pose proof (exps_ok_ab _ _ _ _ H) as Hab. pose proof (exps_ok_cd _ _ _ _ H) as Hcd.
+  pose proof (exps_ok_el _ _ _ _ H) as Hel.
+  destruct o; cbn [opick1 opick2 opick3 opick4].
+  - reflexivity.
+  - now apply eri_spec_swap_ab.
+  - now apply eri_spec_swap_cd.
+  - rewrite (eri_spec_swap_ab s1 s2 s3 s4) by exact H. now apply eri_spec_swap_cd.
+  - now apply eri_spec_swap_el.
+  - rewrite (eri_spec_swap_el s1 s2 s3 s4) by exact H. now apply eri_spec_swap_ab.
+  - rewrite (eri_spec_swap_el s1 s2 s3 s4) by exact H. now apply eri_spec_swap_cd.
+  - rewrite (eri_spec_swap_el s1 s2 s3 s4) by exact H.
+    rewrite (eri_spec_swap_ab s3 s4 s1 s2) by exact Hel. apply eri_spec_swap_cd. now apply exps_ok_ab.
+Qed.
+
+(* ---- list level ---- *)
+Lemma oriented_entry o s1 s2 s3 s4 m1 i1 m2 i2 m3 i3 m4 i4 :
+  m1 < nseg s1 -> i1 < length (comps_of s1) -> m2 < nseg s2 -> i2 < length (comps_of s2) ->
+  m3 < nseg s3 -> i3 < length (comps_of s3) -> m4 < nseg s4 -> i4 < length (comps_of s4) ->
+  get8 K (eri_block_oriented K o s1 s2 s3 s4) m1 i1 m2 i2 m3 i3 m4 i4
+  = get8 K (eri_block K (opick1 o s1 s2 s3 s4) (opick2 o s1 s2 s3 s4) (opick3 o s1 s2 s3 s4) (opick4 o s1 s2 s3 s4))
+         (opick1 o m1 m2 m3 m4) (opick1 o i1 i2 i3 i4) (opick2 o m1 m2 m3 m4) (opick2 o i1 i2 i3 i4)
+         (opick3 o m1 m2 m3 m4) (opick3 o i1 i2 i3 i4) (opick4 o m1 m2 m3 m4) (opick4 o i1 i2 i3 i4).
+Proof.
+  intros Hm1 Hi1 Hm2 Hi2 Hm3 Hi3 Hm4 Hi4.
+  unfold eri_block_oriented. cbv zeta. unfold get8 at 1.
+  rewrite nth_mk by assumption. rewrite nth_mk by assumption. rewrite nth_mk by assumption.
+  rewrite nth_mk by assumption. rewrite nth_mk by assumption. rewrite nth_mk by assumption.
+  rewrite nth_mk by assumption. rewrite nth_mk by assumption. reflexivity.
+Qed.
+
+(* every entry of the block evaluated in ANY of the eight orientations (and transposed back) is the
+   entry of the block evaluated in the given orientation *)
+Theorem eri_block_orientation_independent_pk o s1 s2 s3 s4 m1 i1 m2 i2 m3 i3 m4 i4 :
+  (forall x, fapx K x = x) -> exps_ok s1 s2 s3 s4 -> idx_ok s1 s2 s3 s4 m1 i1 m2 i2 m3 i3 m4 i4 ->
+  get8 K (eri_block_oriented K o s1 s2 s3 s4) m1 i1 m2 i2 m3 i3 m4 i4
+  = get8 K (eri_block K s1 s2 s3 s4) m1 i1 m2 i2 m3 i3 m4 i4.
+Proof.
+  intros Hapx He Hi.
+  rewrite oriented_entry by (unfold idx_ok in Hi; tauto).
+  rewrite eri_block_is_spec by (assumption || now apply exps_ok_orient || now apply idx_ok_orient).
+  rewrite (eri_block_is_spec s1 s2 s3 s4) by assumption.
+  now apply eri_spec_orient.
+Qed.
+
+(* blocks evaluated INDEPENDENTLY for the permuted quartets agree with the transposed block *)
+Theorem both_orientations_agree_eri_pk o s1 s2 s3 s4 m1 i1 m2 i2 m3 i3 m4 i4 :
+  (forall x, fapx K x = x) -> exps_ok s1 s2 s3 s4 -> idx_ok s1 s2 s3 s4 m1 i1 m2 i2 m3 i3 m4 i4 ->
+  get8 K (eri_block K (opick1 o s1 s2 s3 s4) (opick2 o s1 s2 s3 s4) (opick3 o s1 s2 s3 s4) (opick4 o s1 s2 s3 s4))
+         (opick1 o m1 m2 m3 m4) (opick1 o i1 i2 i3 i4) (opick2 o m1 m2 m3 m4) (opick2 o i1 i2 i3 i4)
+         (opick3 o m1 m2 m3 m4) (opick3 o i1 i2 i3 i4) (opick4 o m1 m2 m3 m4) (opick4 o i1 i2 i3 i4)
+  = get8 K (eri_block K s1 s2 s3 s4) m1 i1 m2 i2 m3 i3 m4 i4.
+Proof.
+  intros Hapx He Hi.
+  rewrite <- oriented_entry by (unfold idx_ok in Hi; tauto).
+  now apply eri_block_orientation_independent_pk.
+Qed.
+End Sym.
+End Block.
+
+(* ======================= the statements with every hypothesis spelled out ======================= *)
+Section Final.
+Context {F : Type} (K : Fops F) (Kf : is_field K).
+
+Theorem eri_block_orientation_independent :
+  forall (o : orient) (s1 s2 s3 s4 : shell F) (m1 i1 m2 i2 m3 i3 m4 i4 : nat),
+  (forall x, fapx K x = x) ->
+  (forall n, ofnat K (S n) <> f0 K) ->
+  (forall alpha beta, In alpha (s_exps s1) -> In beta (s_exps s2) -> fadd K alpha beta <> f0 K) ->
+  (forall gamma delta, In gamma (s_exps s3) -> In delta (s_exps s4) -> fadd K gamma delta <> f0 K) ->
+  (forall alpha beta gamma delta, In alpha (s_exps s1) -> In beta (s_exps s2) ->
+     In gamma (s_exps s3) -> In delta (s_exps s4) ->
+     fadd K (fadd K alpha beta) (fadd K gamma delta) <> f0 K) ->
+  m1 < nseg s1 -> m2 < nseg s2 -> m3 < nseg s3 -> m4 < nseg s4 ->
+  i1 < length (comps_of s1) -> i2 < length (comps_of s2) ->
+  i3 < length (comps_of s3) -> i4 < length (comps_of s4) ->
+  compsum (nth i1 (comps_of s1) (0, 0, 0)) <= s_l s1 -> compsum (nth i2 (comps_of s2) (0, 0, 0)) <= s_l s2 ->
+  compsum (nth i3 (comps_of s3) (0, 0, 0)) <= s_l s3 -> compsum (nth i4 (comps_of s4) (0, 0, 0)) <= s_l s4 ->
+  nth i4 (nth m4 (nth i3 (nth m3 (nth i2 (nth m2 (nth i1 (nth m1 (eri_block_oriented K o s1 s2 s3 s4)
+    []) []) []) []) []) []) []) (f0 K)
+  = nth i4 (nth m4 (nth i3 (nth m3 (nth i2 (nth m2 (nth i1 (nth m1 (eri_block K s1 s2 s3 s4)
+    []) []) []) []) []) []) []) (f0 K).
+Proof.
+  intros o s1 s2 s3 s4 m1 i1 m2 i2 m3 i3 m4 i4 Hapx char0 Hp Hq Hpq Hm1 Hm2 Hm3 Hm4 Hi1 Hi2 Hi3 Hi4 Hc1 Hc2 Hc3 Hc4.
+  apply (eri_block_orientation_independent_pk K Kf char0 o s1 s2 s3 s4 m1 i1 m2 i2 m3 i3 m4 i4 Hapx).
+  - repeat split; assumption.
+  - repeat split; assumption.
+Qed.
+
+(* the implementation's floating-point choice of the orientation is irrelevant to the exact value *)
+Corollary eri_block_impl_is_eri_block :
+  forall (choose : shell F -> shell F -> shell F -> shell F -> orient)
+         (s1 s2 s3 s4 : shell F) (m1 i1 m2 i2 m3 i3 m4 i4 : nat),
+  (forall x, fapx K x = x) ->
+  (forall n, ofnat K (S n) <> f0 K) ->
+  (forall alpha beta, In alpha (s_exps s1) -> In beta (s_exps s2) -> fadd K alpha beta <> f0 K) ->
+  (forall gamma delta, In gamma (s_exps s3) -> In delta (s_exps s4) -> fadd K gamma delta <> f0 K) ->
+  (forall alpha beta gamma delta, In alpha (s_exps s1) -> In beta (s_exps s2) ->
+     In gamma (s_exps s3) -> In delta (s_exps s4) ->
+     fadd K (fadd K alpha beta) (fadd K gamma delta) <> f0 K) ->
+  m1 < nseg s1 -> m2 < nseg s2 -> m3 < nseg s3 -> m4 < nseg s4 ->
+  i1 < length (comps_of s1) -> i2 < length (comps_of s2) ->
+  i3 < length (comps_of s3) -> i4 < length (comps_of s4) ->
+  compsum (nth i1 (comps_of s1) (0, 0, 0)) <= s_l s1 -> compsum (nth i2 (comps_of s2) (0, 0, 0)) <= s_l s2 ->
+  compsum (nth i3 (comps_of s3) (0, 0, 0)) <= s_l s3 -> compsum (nth i4 (comps_of s4) (0, 0, 0)) <= s_l s4 ->
+  nth i4 (nth m4 (nth i3 (nth m3 (nth i2 (nth m2 (nth i1 (nth m1 (eri_block_impl K choose s1 s2 s3 s4)
+    []) []) []) []) []) []) []) (f0 K)
+  = nth i4 (nth m4 (nth i3 (nth m3 (nth i2 (nth m2 (nth i1 (nth m1 (eri_block K s1 s2 s3 s4)
+    []) []) []) []) []) []) []) (f0 K).
+Proof. intros choose s1 s2 s3 s4. unfold eri_block_impl. apply eri_block_orientation_independent. Qed.
+
+(* C11: the blocks evaluated independently for the permuted quartets are the transposed block *)
+Theorem both_orientations_agree_eri :
+  forall (o : orient) (s1 s2 s3 s4 : shell F) (m1 i1 m2 i2 m3 i3 m4 i4 : nat),
+  (forall x, fapx K x = x) ->
+  (forall n, ofnat K (S n) <> f0 K) ->
+  (forall alpha beta, In alpha (s_exps s1) -> In beta (s_exps s2) -> fadd K alpha beta <> f0 K) ->
+  (forall gamma delta, In gamma (s_exps s3) -> In delta (s_exps s4) -> fadd K gamma delta <> f0 K) ->
+  (forall alpha beta gamma delta, In alpha (s_exps s1) -> In beta (s_exps s2) ->
+     In gamma (s_exps s3) -> In delta (s_exps s4) ->
+     fadd K (fadd K alpha beta) (fadd K gamma delta) <> f0 K) ->
+  m1 < nseg s1 -> m2 < nseg s2 -> m3 < nseg s3 -> m4 < nseg s4 ->
+  i1 < length (comps_of s1) -> i2 < length (comps_of s2) ->
+  i3 < length (comps_of s3) -> i4 < length (comps_of s4) ->
+  compsum (nth i1 (comps_of s1) (0, 0, 0)) <= s_l s1 -> compsum (nth i2 (comps_of s2) (0, 0, 0)) <= s_l s2 ->
+  compsum (nth i3 (comps_of s3) (0, 0, 0)) <= s_l s3 -> compsum (nth i4 (comps_of s4) (0, 0, 0)) <= s_l s4 ->
+  nth (opick4 o i1 i2 i3 i4) (nth (opick4 o m1 m2 m3 m4)
+    (nth (opick3 o i1 i2 i3 i4) (nth (opick3 o m1 m2 m3 m4)
+      (nth (opick2 o i1 i2 i3 i4) (nth (opick2 o m1 m2 m3 m4)
+        (nth (opick1 o i1 i2 i3 i4) (nth (opick1 o m1 m2 m3 m4)
+          (eri_block K (opick1 o s1 s2 s3 s4) (opick2 o s1 s2 s3 s4) (opick3 o s1 s2 s3 s4) (opick4 o s1 s2 s3 s4))
+    []) []) []) []) []) []) []) (f0 K)
+  = nth i4 (nth m4 (nth i3 (nth m3 (nth i2 (nth m2 (nth i1 (nth m1 (eri_block K s1 s2 s3 s4)
+    []) []) []) []) []) []) []) (f0 K).
+Proof.
+  intros o s1 s2 s3 s4 m1 i1 m2 i2 m3 i3 m4 i4 Hapx char0 Hp Hq Hpq Hm1 Hm2 Hm3 Hm4 Hi1 Hi2 Hi3 Hi4 Hc1 Hc2 Hc3 Hc4.
+  apply (both_orientations_agree_eri_pk K Kf char0 o s1 s2 s3 s4 m1 i1 m2 i2 m3 i3 m4 i4 Hapx).
+  - repeat split; assumption.
+  - repeat split; assumption.
+Qed.
+
+(* the three generators written out: (ba|cd), (ab|dc), (cd|ab) *)
+Section Generators.
+Variables (s1 s2 s3 s4 : shell F) (m1 i1 m2 i2 m3 i3 m4 i4 : nat).
+Hypothesis Hapx : forall x, fapx K x = x.
+Hypothesis char0 : forall n, ofnat K (S n) <> f0 K.
+Hypothesis Hp : forall alpha beta, In alpha (s_exps s1) -> In beta (s_exps s2) -> fadd K alpha beta <> f0 K.
+Hypothesis Hq : forall gamma delta, In gamma (s_exps s3) -> In delta (s_exps s4) -> fadd K gamma delta <> f0 K.
+Hypothesis Hpq : forall alpha beta gamma delta, In alpha (s_exps s1) -> In beta (s_exps s2) ->
+  In gamma (s_exps s3) -> In delta (s_exps s4) -> fadd K (fadd K alpha beta) (fadd K gamma delta) <> f0 K.
+Hypothesis Hm1 : m1 < nseg s1. Hypothesis Hm2 : m2 < nseg s2.
+Hypothesis Hm3 : m3 < nseg s3. Hypothesis Hm4 : m4 < nseg s4.
+Hypothesis Hi1 : i1 < length (comps_of s1). Hypothesis Hi2 : i2 < length (comps_of s2).
+Hypothesis Hi3 : i3 < length (comps_of s3). Hypothesis Hi4 : i4 < length (comps_of s4).
+Hypothesis Hc1 : compsum (nth i1 (comps_of s1) (0, 0, 0)) <= s_l s1.
+Hypothesis Hc2 : compsum (nth i2 (comps_of s2) (0, 0, 0)) <= s_l s2.
+Hypothesis Hc3 : compsum (nth i3 (comps_of s3) (0, 0, 0)) <= s_l s3.
+Hypothesis Hc4 : compsum (nth i4 (comps_of s4) (0, 0, 0)) <= s_l s4.
+
+Theorem eri_block_swap_ab :
+  nth i4 (nth m4 (nth i3 (nth m3 (nth i1 (nth m1 (nth i2 (nth m2 (eri_block K s2 s1 s3 s4)
+    []) []) []) []) []) []) []) (f0 K)
+  = nth i4 (nth m4 (nth i3 (nth m3 (nth i2 (nth m2 (nth i1 (nth m1 (eri_block K s1 s2 s3 s4)
+    []) []) []) []) []) []) []) (f0 K).
+Proof. exact (both_orientations_agree_eri O_bacd s1 s2 s3 s4 m1 i1 m2 i2 m3 i3 m4 i4 Hapx char0 Hp Hq Hpq
+                Hm1 Hm2 Hm3 Hm4 Hi1 Hi2 Hi3 Hi4 Hc1 Hc2 Hc3 Hc4). Qed.
+Theorem eri_block_swap_cd :
+  nth i3 (nth m3 (nth i4 (nth m4 (nth i2 (nth m2 (nth i1 (nth m1 (eri_block K s1 s2 s4 s3)
+    []) []) []) []) []) []) []) (f0 K)
+  = nth i4 (nth m4 (nth i3 (nth m3 (nth i2 (nth m2 (nth i1 (nth m1 (eri_block K s1 s2 s3 s4)
+    []) []) []) []) []) []) []) (f0 K).
+Proof. exact (both_orientations_agree_eri O_abdc s1 s2 s3 s4 m1 i1 m2 i2 m3 i3 m4 i4 Hapx char0 Hp Hq Hpq
+                Hm1 Hm2 Hm3 Hm4 Hi1 Hi2 Hi3 Hi4 Hc1 Hc2 Hc3 Hc4). Qed.
+Theorem eri_block_swap_el :
+  nth i2 (nth m2 (nth i1 (nth m1 (nth i4 (nth m4 (nth i3 (nth m3 (eri_block K s3 s4 s1 s2)
+    []) []) []) []) []) []) []) (f0 K)
+  = nth i4 (nth m4 (nth i3 (nth m3 (nth i2 (nth m2 (nth i1 (nth m1 (eri_block K s1 s2 s3 s4)
+    []) []) []) []) []) []) []) (f0 K).
+Proof. exact (both_orientations_agree_eri O_cdab s1 s2 s3 s4 m1 i1 m2 i2 m3 i3 m4 i4 Hapx char0 Hp Hq Hpq
+                Hm1 Hm2 Hm3 Hm4 Hi1 Hi2 Hi3 Hi4 Hc1 Hc2 Hc3 Hc4). Qed.
+End Generators.
+End Final.
+
+(* ======================= examples at Qc ======================= *)
+From Coq Require Import Bool QArith Qcanon.
+
+(* the hypotheses are satisfiable: characteristic 0 at the executable instance; the rest is
+   TwoElecP.two_elec_hyps_ex (the (p d | s p) quartet ex_s1..ex_s4) *)
+Example orient_char0_ex : forall n, ofnat KQ4 (S n) <> f0 KQ4.
+Proof. exact (QcK_char0 (Q2Qc 3) (fun x => x) (fun x => x) (fun x => x)
+                (fun m _ => qc_of 1 (Pos.of_nat (2 * m + 1)))). Qed.
+
+Definition all_orients : list orient := [O_abcd; O_bacd; O_abdc; O_badc; O_cdab; O_dcab; O_cdba; O_dcba].
+Definition flat8 (b : block8 (F:=Qc)) : list Qc :=
+  concat (concat (concat (concat (concat (concat (concat b)))))).
+Definition block_eqb (a b : block8 (F:=Qc)) : bool :=
+  Nat.eqb (length (flat8 a)) (length (flat8 b))
+  && forallb (fun xy : Qc * Qc => Qeq_bool (fst xy) (snd xy)) (combine (flat8 a) (flat8 b)).
+
+(* (p s | s p): p shell with two primitives and two segmented contractions at A, s with one primitive at B,
+   s with one primitive and two segmented contractions at C, p with one primitive at D; four different centres *)
+Definition o_sh (l : nat) (x y z : Qc) (es : list Qc) (cs : list (list Qc)) : shell Qc :=
+  mkShell Qc l x y z es cs false [] [].
+Definition o_s1 := o_sh 1 (qc_of 0 1) (qc_of 1 2) (qc_of 0 1) [qc_of 1 1; qc_of 1 2]
+                        [[qc_of 1 1; qc_of 1 3]; [qc_of 1 2; qc_of (-1) 1]].
+Definition o_s2 := o_sh 0 (qc_of 1 1) (qc_of 0 1) (qc_of 1 4) [qc_of 3 2] [[qc_of 1 1]].
+Definition o_s3 := o_sh 0 (qc_of (-1) 2) (qc_of 1 1) (qc_of 0 1) [qc_of 2 1] [[qc_of 1 1; qc_of 1 2]].
+Definition o_s4 := o_sh 1 (qc_of 1 4) (qc_of (-1) 1) (qc_of 1 2) [qc_of 3 4] [[qc_of 1 1]].
+
+(* all eight oriented blocks coincide with the block of the given orientation, entry by entry
+   (36 entries each; exact rational arithmetic, arbitrary stand-ins for pi, sqrt, exp, Boys) *)
+Example eight_orientations_ex :
+  (let r := eri_block KQ4 o_s1 o_s2 o_s3 o_s4 in
+   forallb (fun o => block_eqb (eri_block_oriented KQ4 o o_s1 o_s2 o_s3 o_s4) r) all_orients) = true.
+Proof. vm_compute. reflexivity. Qed.
+(* ... and the transposition is not vacuous: the block of (cd|ab) is not the block of (ab|cd) read in
+   the same axis order, and the block has 36 = 2*3*1*1*2*1*1*3 entries *)
+Example transposition_matters_ex :
+  block_eqb (eri_block KQ4 o_s3 o_s4 o_s1 o_s2) (eri_block KQ4 o_s1 o_s2 o_s3 o_s4) = false
+  /\ length (flat8 (eri_block KQ4 o_s1 o_s2 o_s3 o_s4)) = 36%nat.
+Proof. split; vm_compute; reflexivity. Qed.
